@@ -2,6 +2,7 @@ import Ivy.Drv.Avl
 import Ivy.Drv.Heap
 import Ivy.Drv.Pump
 import Ivy.Drv.Loop
+import Ivy.Drv.Select
 
 def main (args : List String) : IO UInt32 := do
   match args with
@@ -9,4 +10,5 @@ def main (args : List String) : IO UInt32 := do
   | ["heap"] => Ivy.Drv.Heap.run; return 0
   | ["pump"] => Ivy.Drv.Pump.run; return 0
   | ["loop"] => Ivy.Drv.Loop.run; return 0
+  | ["select"] => Ivy.Drv.Select.run; return 0
   | _ => IO.eprintln "usage: ivyreplay <component>"; return 2
